@@ -970,5 +970,16 @@ func lookupGrid() []Case {
 			}
 		}
 	}
+	// default_realm spelt in another letter case than the configured realm it resembles: GetKDCs("") finds nothing
+	for _, pair := range [][2]string{{"other.org", "OTHER.ORG"}, {"EXAMPLE.COM", "example.com"}, {"Corp.Example", "CORP.EXAMPLE"}} {
+		lib := append([]kc.LibEntry{}, baseLib...)
+		for i := range lib {
+			if lib[i].Key == "default_realm" {
+				lib[i] = strEntry("default_realm", pair[0])
+			}
+		}
+		r1 := kc.Realm{Name: pair[1], Items: srvItems("kdc", hosts[:2], []int{88, 0}, -1)}
+		out = append(out, Case{Kind: "lookup", Model: modelOf(lib, []kc.Realm{r1, baseRealm2()}, nil), Reps: 24})
+	}
 	return out
 }
